@@ -406,6 +406,14 @@ class TemplatePostInit(Contract):
         env = lambda I, a, k: SObj("jinja2.Environment", {"from_string": NativeFn("from_string", lambda I2, a2, k2: SObj("jinja2.Template", {"globals": {}})),
                                                          "get_template": NativeFn("get_template", lambda I2, a2, k2: SObj("jinja2.Template", {"globals": {}}))})
         E.externals["jinja2.sandbox.SandboxedEnvironment"] = env
+        # the environment class may be a subclass defined next to TemplateBase (TemplateSandbox since D36): constructing it is constructing a Jinja environment
+
+        def hook(I, cinfo, args, kwargs):
+            from pyvc.interp import UNBOUND
+            if any("SandboxedEnvironment" in (getattr(b, "id", None) or getattr(b, "attr", None) or "") for b in getattr(cinfo.node, "bases", [])):
+                return env(I, args, kwargs)
+            return UNBOUND
+        E.instantiate_hook = hook
         E.externals["jinja2.FileSystemLoader"] = lambda I, a, k: None
 
         def s_load(I, so, a, k):
